@@ -29,7 +29,7 @@ def _norm(vs, root):
 
 
 def pattern_text(p: dict, files) -> str:
-    """Instantiate a Collect.tla pattern [kind, f] on the nested layout pkg/m<f>/mod.<ext>."""
+    """Instantiate a Walker.tla pattern [kind, f] on the nested layout pkg/m<f>/mod.<ext>."""
     rel = files[p["f"] - 1][0]
     d = f"m{p['f']:02d}"
     ext = os.path.splitext(rel)[1]
@@ -138,19 +138,19 @@ def run(chk) -> None:
                     jobs.append({"n": n, "cross": [[1, 2], [3, 6]], "layout": layout, "offset": off,
                                  "cmd": cmd, "targets": tg, "config": config, "explicit": explicit,
                                  "root": str(scratch_root() / f"c10-{len(jobs)}" / "proj")})
-    # repository-level ignore patterns (Collect.tla): the walker of a directory run and a run naming each file
+    # repository-level ignore patterns (Walker.tla): the walker of a directory run and a run naming each file
     # must agree on which files are linted, whatever the patterns match
-    rc = tlc.run("Collect", "mc/Collect.cfg", workers=1, timeout=300)
-    chk.add_tlc("Collect: ignore-pattern sets, walker as coded", rc)
+    rc = tlc.run("Walker", "mc/Walker.cfg", workers=1, timeout=300)
+    chk.add_tlc("Walker: ignore-pattern sets, walker as coded", rc)
     if rc.violation:
-        raise MachineryError("Collect.tla: WalkerMatchesUnion violated:\n" + rc.stdout[-1500:])
-    rp = tlc.run("Collect", "mc/Collect_pruning.cfg", workers=1, timeout=300)
-    chk.add_tlc("Collect: a walker pruning ignored directories (non-vacuity)", rp)
+        raise MachineryError("Walker.tla: WalkerMatchesUnion violated:\n" + rc.stdout[-1500:])
+    rp = tlc.run("Walker", "mc/Walker_pruning.cfg", workers=1, timeout=300)
+    chk.add_tlc("Walker: a walker pruning ignored directories (non-vacuity)", rp)
     if not rp.violation:
         raise MachineryError("vacuity: a walker that prunes ignored directories satisfies WalkerMatchesUnion")
     pcases = tlc.parse_cases(rc.stdout)
     if len(pcases) < 50:
-        raise MachineryError(f"Collect.tla emitted {len(pcases)} pattern sets")
+        raise MachineryError(f"Walker.tla emitted {len(pcases)} pattern sets")
     dir_and_files = [t for t in targets if t[0] != "list" or len(t[1]) == n]
     for ci, cmd in enumerate(cmds):
         mine = list(pcases)
